@@ -28,9 +28,52 @@ def name_of(node):
     return "UNKNOWN"
 
 
-def dests_of(fn):
+# ---- module-level helpers and constants are looked through (a handler may delegate to them) -------------------
+FNS = {}        # module-level functions of cli.py, filled in below
+CONSTS = {}     # module-level NAME = (A, B) / [A, B] / {A: ..., B: ...} / {A, B}
+
+
+def const_names(node):
+    """the exception class names a handler type expression denotes, looking through module-level constants"""
+    if isinstance(node, ast.Tuple) or isinstance(node, ast.List) or isinstance(node, ast.Set):
+        out = []
+        for e in node.elts:
+            out += const_names(e)
+        return out
+    if isinstance(node, ast.Dict):
+        out = []
+        for k in node.keys:
+            out += const_names(k) if k is not None else ["UNKNOWN"]
+        return out
+    if isinstance(node, ast.Call) and isinstance(node.func, ast.Name) and node.func.id in ("tuple", "list", "set", "frozenset") and len(node.args) == 1:
+        return const_names(node.args[0])
+    if isinstance(node, ast.Name) and node.id in CONSTS:
+        return const_names(CONSTS[node.id])
+    return [name_of(node)]
+
+
+def walk_inlined(node, args_names=("args",), depth=0, seen=()):
+    """ast.walk that also descends into the bodies of module-level helper functions called from `node`; yields
+    (node, names) where `names` are the local names that denote the argparse namespace at that point"""
+    for n in ast.walk(node):
+        yield n, args_names
+        if isinstance(n, ast.Call) and isinstance(n.func, ast.Name) and n.func.id in FNS and depth < 4 and n.func.id not in seen:
+            callee = FNS[n.func.id]
+            params = [a.arg for a in callee.args.args]
+            inner = []
+            for i, a in enumerate(n.args):
+                if isinstance(a, ast.Name) and a.id in args_names and i < len(params):
+                    inner.append(params[i])
+            for kw in n.keywords:
+                if isinstance(kw.value, ast.Name) and kw.value.id in args_names and kw.arg:
+                    inner.append(kw.arg)
+            for stmt in callee.body:
+                yield from walk_inlined(stmt, tuple(inner), depth + 1, seen + (n.func.id,))
+
+
+def dests_of(fn, skip=()):
     out = []
-    for node in ast.walk(fn):
+    for node, _ in walk_inlined(fn, seen=tuple(skip)):
         if isinstance(node, ast.Call) and isinstance(node.func, ast.Attribute) and node.func.attr == "add_argument":
             dest = None
             for kw in node.keywords:
@@ -50,8 +93,8 @@ def dests_of(fn):
 
 def reads_of(fn):
     out = []
-    for node in ast.walk(fn):
-        if isinstance(node, ast.Attribute) and isinstance(node.value, ast.Name) and node.value.id == "args":
+    for node, names in walk_inlined(fn):
+        if isinstance(node, ast.Attribute) and isinstance(node.value, ast.Name) and node.value.id in names:
             if node.attr not in out:
                 out.append(node.attr)
     return out
@@ -60,10 +103,8 @@ def reads_of(fn):
 def clause_info(h):
     if h.type is None:
         classes = ["BaseException"]
-    elif isinstance(h.type, ast.Tuple):
-        classes = [name_of(e) for e in h.type.elts]
     else:
-        classes = [name_of(h.type)]
+        classes = const_names(h.type)
     src = ast.dump(ast.Module(body=h.body, type_ignores=[]))
     reraise_on_debug = False
     for node in h.body:
@@ -72,7 +113,7 @@ def clause_info(h):
                 reraise_on_debug = True
     writes = 0
     exits = False
-    for node in ast.walk(ast.Module(body=h.body, type_ignores=[])):
+    for node, _ in walk_inlined(ast.Module(body=h.body, type_ignores=[])):
         if isinstance(node, ast.Call) and isinstance(node.func, ast.Attribute):
             if node.func.attr == "write" and "stderr" in ast.dump(node.func):
                 writes += 1
@@ -91,6 +132,12 @@ def tries_of(fn):
 
 cli = ast.parse(open(os.path.join(REPO, "jsonpath", "cli.py")).read())
 fns = {n.name: n for n in cli.body if isinstance(n, ast.FunctionDef)}
+FNS.update(fns)
+for n in cli.body:
+    if isinstance(n, ast.Assign) and len(n.targets) == 1 and isinstance(n.targets[0], ast.Name):
+        CONSTS[n.targets[0].id] = n.value
+    elif isinstance(n, ast.AnnAssign) and isinstance(n.target, ast.Name) and n.value is not None:
+        CONSTS[n.target.id] = n.value
 exc = ast.parse(open(os.path.join(REPO, "jsonpath", "exceptions.py")).read())
 hier = []
 for n in exc.body:
@@ -112,7 +159,8 @@ def emit_strs(name, strs):
 
 for cmd in ("path", "pointer", "patch"):
     emit_strs("cli_%s_dests" % cmd, dests_of(fns.get("%s_sub_command" % cmd, ast.parse("def f(): pass").body[0])) +
-              dests_of(fns.get("setup_parser", ast.parse("def f(): pass").body[0])))
+              dests_of(fns.get("setup_parser", ast.parse("def f(): pass").body[0]),
+                       skip=("path_sub_command", "pointer_sub_command", "patch_sub_command")))
     h = fns.get("handle_%s_command" % cmd)
     emit_strs("cli_%s_reads" % cmd, reads_of(h) if h else ["UNKNOWN"])
     tries = tries_of(h) if h else []
